@@ -315,6 +315,15 @@ static void v_syslog(int prio, const char *fmt, ...) { (void)prio; (void)fmt; }
 
 #include "threadpool/threadpool.c"	/* the code under test (gives access to its static functions) */
 
+#ifndef TPEV_HAVE_MSG_SYS
+/* threadpool_msg_sys.c (C05/C10) is not part of these translation units; tpt_data_event_init/destroy reference these
+ * functions (and tp_shutdown references tpt_msg_send) but nothing here calls them (the pool pre-state is built by tpev_env_init). Present for the native link only. */
+tpt_msg_queue_p tpt_msg_queue_create(tpt_p tpt, const uint32_t flags) { (void)tpt; (void)flags; abort(); return (NULL); }
+void tpt_msg_queue_destroy(tpt_msg_queue_p q) { (void)q; abort(); }
+int tpt_msg_send(tpt_p dst, tpt_p src, uint32_t flags, tpt_msg_cb msg_cb, void *udata) {
+	(void)dst; (void)src; (void)flags; (void)msg_cb; (void)udata; abort(); return (0); }
+#endif
+
 /* ---- pool pre-state: what tp_create(threads_max = 1) + tpt_data_init leave behind (pool life cycle itself is C11) ---- */
 static tp_p tpev_tp;
 static tpt_p tpev_tpt, tpev_pvt;
